@@ -94,6 +94,24 @@ def fe_fields_blank(R):
                 f"split()/merge() hand out an object without it",
                 construct=f"{c.name}.{f} missing in _blank_copy",
             )
+            # a blank copy has the parent's configuration but none of its state: containers start empty
+            if f in blank and util.may_be_mutable_container(fields[f]):
+                for kind, node, val in blank[f]:
+                    if kind != "assign":
+                        continue
+                    fresh_empty = (
+                        (isinstance(val, (ast.List, ast.Set, ast.Tuple)) and not val.elts)
+                        or (isinstance(val, ast.Dict) and not val.keys)
+                        or (isinstance(val, ast.Call) and not val.args and not val.keywords and util.is_fresh_container(val))
+                    )
+                    R.check(
+                        fresh_empty,
+                        m,
+                        node,
+                        f"{c.name}._blank_copy: container field {f} starts empty",
+                        f"{c.name}._blank_copy initialises the container field {f} with `{norm(val)}`: a blank copy "
+                        f"(used by merge/combine/split) must not inherit facts that were derived from the parent's constraints",
+                    )
     R.need(n_classes >= 9, f"only {n_classes} state-owning frontend classes found")
     R.extra["state_owning_classes"] = n_classes
 
@@ -265,7 +283,7 @@ SHARED_OK = {
 
 @rule(
     "FE.copyalias",
-    props=("C14",),
+    props=("C14", "C11", "C12", "C13"),
     floor=25,
     family="TS",
     desc="_copy gives the child fresh containers / deep-branched sub-frontends, never a bare alias of the "
